@@ -753,3 +753,141 @@ func addAcroForm(data []byte, rnd *vt.Rand) (out []byte, label string) {
 	out = append(out, app.Bytes()...)
 	return out, fmt.Sprintf("acroform %s widgets=%d", sh.name, len(pages))
 }
+
+// ---------------------------------------------------------------------------
+// simple fonts: /FirstChar, /LastChar and /Widths made inconsistent
+
+var (
+	widthFirstChars = []int64{0, 1, 250, 255, 256, -1, 1 << 31, 128, 65535}
+	widthCounts     = []int{0, 1, 2, 7, 255, 256, 257, 1000}
+)
+
+// widthsArray renders a /Widths array of n entries; style 1 mixes in
+// non-numeric entries, style 2 uses indirect entries.
+func widthsArray(n, style int, ref int64) string {
+	var b strings.Builder
+	b.WriteString("[")
+	for i := 0; i < n; i++ {
+		switch {
+		case style == 1 && i%5 == 3:
+			b.WriteString([]string{" /x", " (y)", " null", " [ 1 ]", " << >>", " 1e39"}[i/5%6])
+		case style == 2 && ref > 0:
+			fmt.Fprintf(&b, " %d 0 R", ref)
+		default:
+			fmt.Fprintf(&b, " %d", 400+i%300)
+		}
+	}
+	b.WriteString(" ]")
+	return b.String()
+}
+
+// tamperWidths sets /FirstChar, /LastChar and /Widths of a simple font
+// dictionary to boundary values which do not fit together.
+func tamperWidths(data []byte, rnd *vt.Rand) (out []byte, label string) {
+	defer func() {
+		if r := recover(); r != nil {
+			out, label = nil, ""
+		}
+	}()
+	ts := syntax.Tokens(data)
+	objs := locate(ts)
+	m := &mutator{data: data, toks: ts}
+	type fontDict struct{ open, end int }
+	var fonts []fontDict
+	var anyNum int64
+	for _, o := range objs {
+		if o.tok+3 >= len(ts) || ts[o.tok+3].Kind != syntax.TokDictOpen {
+			if o.tok+3 < len(ts) && (ts[o.tok+3].Kind == syntax.TokInt || ts[o.tok+3].Kind == syntax.TokReal) {
+				anyNum = o.num // a number object: usable as indirect width
+			}
+			continue
+		}
+		end := m.valueEnd(o.tok + 3)
+		if end > len(ts) || ts[end-1].Kind != syntax.TokDictClose {
+			continue
+		}
+		depth, simple := 0, false
+		for j := o.tok + 3; j+1 < end; j++ {
+			switch ts[j].Kind {
+			case syntax.TokDictOpen, syntax.TokArrayOpen:
+				depth++
+			case syntax.TokDictClose, syntax.TokArrayClose:
+				depth--
+			}
+			if depth == 1 && ts[j].Kind == syntax.TokName && string(ts[j].Bytes) == "Subtype" && ts[j+1].Kind == syntax.TokName {
+				switch string(ts[j+1].Bytes) {
+				case "Type1", "MMType1", "TrueType", "Type3":
+					simple = true
+				}
+			}
+		}
+		if simple {
+			fonts = append(fonts, fontDict{o.tok + 3, end})
+		}
+	}
+	if len(fonts) == 0 {
+		return nil, ""
+	}
+	f := fonts[rnd.Intn(len(fonts))]
+	first := widthFirstChars[rnd.Intn(len(widthFirstChars))]
+	n := widthCounts[rnd.Intn(len(widthCounts))]
+	var last int64
+	switch rnd.Intn(6) {
+	case 0:
+		last = first - 1
+	case 1:
+		last = 255
+	case 2:
+		last = 256
+	case 3:
+		last = 65535
+	default:
+		last = first + int64(n) - 1
+	}
+	style := rnd.Intn(4)
+	repl := map[string]string{
+		"FirstChar": strconv.FormatInt(first, 10),
+		"LastChar":  strconv.FormatInt(last, 10),
+		"Widths":    widthsArray(n, style, anyNum),
+	}
+	// replace existing entries from the back, add the missing ones
+	type edit struct {
+		from, to int
+		text     string
+	}
+	var edits []edit
+	depth := 0
+	done := map[string]bool{}
+	for j := f.open; j+1 < f.end; j++ {
+		switch ts[j].Kind {
+		case syntax.TokDictOpen, syntax.TokArrayOpen:
+			depth++
+		case syntax.TokDictClose, syntax.TokArrayClose:
+			depth--
+		}
+		if depth == 1 && ts[j].Kind == syntax.TokName {
+			if v, ok := repl[string(ts[j].Bytes)]; ok && !done[string(ts[j].Bytes)] {
+				ve := m.valueEnd(j + 1)
+				if ve <= f.end-1 {
+					edits = append(edits, edit{ts[j+1].Pos, ts[ve-1].End, v})
+					done[string(ts[j].Bytes)] = true
+				}
+			}
+		}
+	}
+	add := ""
+	for _, k := range []string{"FirstChar", "LastChar", "Widths"} {
+		if !done[k] {
+			add += " /" + k + " " + repl[k]
+		}
+	}
+	if add != "" {
+		edits = append(edits, edit{ts[f.end-1].Pos, ts[f.end-1].Pos, add + " "})
+	}
+	out = append([]byte{}, data...)
+	for i := len(edits) - 1; i >= 0; i-- { // positions ascend: apply from the back
+		e := edits[i]
+		out = append(out[:e.from], append([]byte(e.text), out[e.to:]...)...)
+	}
+	return out, fmt.Sprintf("widths first=%d last=%d n=%d style=%d", first, last, n, style)
+}
